@@ -616,3 +616,144 @@ func VerifCSSTwin(n int) {
 	out := verifDecl("color", []byte("#ff0000"), &Minifier{})
 	vAssert(len(out) > 50, "twin: must fail")
 }
+
+// VerifCSSHexAlpha: #rrggbbaa with the colour part from a short list and the two alpha digits symbolic.
+func VerifCSSHexAlpha(n int) {
+	rgb := []string{"aabbcd", "000000", "ff0000", "AABBCC", "112233"}[vChoice("rgb", 5)]
+	a := vBytes("a", 2)
+	vAssume(rcHex(a[0]) >= 0 && rcHex(a[1]) >= 0)
+	prop := []string{"color", "background", "border", "outline", "background-color"}[vChoice("prop", 5)]
+	val := append(append([]byte("#"), rgb...), a...)
+	r0, g0, b0, a0, _ := rcColor(val)
+	out := verifDecl(prop, val, &Minifier{})
+	// shorthands may add or drop other components: take the colour token
+	toks := rcSplit(out)
+	found := false
+	for _, t := range toks {
+		if r1, g1, b1, a1, ok := rcColor(t); ok {
+			found = true
+			vAssert(a0 == a1 && (a0 == 0 || r0 == r1 && g0 == g1 && b0 == b1), "same sRGB colour and alpha")
+		}
+	}
+	if !found {
+		// a fully transparent background colour is the initial value and may be dropped from the shorthand
+		vAssert(a0 == 0 && (prop == "background" || prop == "border" || prop == "outline"), "colour dropped although it is not the initial value")
+	}
+	vReach("end")
+}
+
+// ---- unicode-range (CSS Fonts: <urange>) ----
+
+type rcIv struct{ lo, hi int }
+
+// rcURange parses one <urange> token: U+X, U+X-Y, U+X?? ; ok=false if malformed.
+func rcURange(t []byte) (rcIv, bool) {
+	if len(t) < 3 || (t[0] != 'U' && t[0] != 'u') || t[1] != '+' {
+		return rcIv{}, false
+	}
+	i := 2
+	lo, hi, nd := 0, 0, 0
+	for i < len(t) && rcHex(t[i]) >= 0 {
+		lo = lo*16 + rcHex(t[i])
+		hi = hi*16 + rcHex(t[i])
+		i++
+		nd++
+	}
+	nq := 0
+	for i < len(t) && t[i] == '?' {
+		lo = lo * 16
+		hi = hi*16 + 15
+		i++
+		nq++
+	}
+	if nd+nq == 0 || nd+nq > 6 {
+		return rcIv{}, false
+	}
+	if i < len(t) && t[i] == '-' && nq == 0 {
+		i++
+		hi, nd = 0, 0
+		for i < len(t) && rcHex(t[i]) >= 0 {
+			hi = hi*16 + rcHex(t[i])
+			i++
+			nd++
+		}
+		if nd == 0 || nd > 6 {
+			return rcIv{}, false
+		}
+	}
+	if i != len(t) || hi < lo || hi > 0x10FFFF {
+		return rcIv{}, false
+	}
+	return rcIv{lo, hi}, true
+}
+
+// rcCover normalises a list of intervals to a sorted list of disjoint, non-adjacent intervals.
+func rcCover(ivs []rcIv) []rcIv {
+	s := append([]rcIv(nil), ivs...)
+	for i := 1; i < len(s); i++ {
+		for j := i; j > 0 && s[j].lo < s[j-1].lo; j-- {
+			s[j], s[j-1] = s[j-1], s[j]
+		}
+	}
+	var out []rcIv
+	for _, iv := range s {
+		if len(out) > 0 && iv.lo <= out[len(out)-1].hi+1 {
+			if iv.hi > out[len(out)-1].hi {
+				out[len(out)-1].hi = iv.hi
+			}
+		} else {
+			out = append(out, iv)
+		}
+	}
+	return out
+}
+
+var verifURanges = []string{"U+F000-10FFFF", "U+0-FF", "U+E000-10EFFF", "U+4??", "U+26", "U+0025-00FF", "U+F0-1000FF", "U+1230-10123F", "U+100000-10FFFF", "U+FF00-10FFFF", "U+0-10FFFF", "U+100-1FF", "u+1?", "U+FFFF0-10000F", "U+0-7F"}
+
+// VerifCSSUnicodeRange: unicode-range with n comma separated ranges: the same set of code points.
+func VerifCSSUnicodeRange(n int) {
+	var ivs []rcIv
+	val := make([]byte, 0, 64)
+	for i := 0; i < n; i++ {
+		u := verifURanges[vChoice("r"+string(rune('0'+i)), len(verifURanges))]
+		if i > 0 {
+			val = append(val, ',')
+		}
+		val = append(val, u...)
+		iv, _ := rcURange([]byte(u))
+		ivs = append(ivs, iv)
+	}
+	in := append(append([]byte("@font-face{unicode-range:"), val...), '}')
+	out, err := verifCSSRun(in, &Minifier{}, false)
+	vReach("after-call")
+	vOutput("out", out)
+	vAssert(err == nil, "accepted")
+	pre := "@font-face{unicode-range:"
+	vAssert(len(out) > len(pre) && string(out[:len(pre)]) == pre && out[len(out)-1] == '}', "rule and property kept")
+	body := out[len(pre) : len(out)-1]
+	var got []rcIv
+	if string(body) == "initial" {
+		got = []rcIv{{0, 0x10FFFF}}
+	} else {
+		start := 0
+		for i := 0; i <= len(body); i++ {
+			if i == len(body) || body[i] == ',' {
+				iv, ok := rcURange(body[start:i])
+				vAssert(ok, "output range is well formed")
+				got = append(got, iv)
+				start = i + 1
+			}
+		}
+	}
+	a, b := rcCover(ivs), rcCover(got)
+	same := len(a) == len(b)
+	if same {
+		for i := range a {
+			if a[i] != b[i] {
+				same = false
+			}
+		}
+	}
+	vAssert(same, "same set of code points")
+	vReach("end")
+}
